@@ -1153,6 +1153,10 @@ func (p *ChangeTssECDSAPubKeyMethod) ReceiveBlock(context vm_context.AccountVmCo
 	pubKey, _ := base64.StdEncoding.DecodeString(param.PubKey)
 
 	X, Y := secp256k1.DecompressPubkey(pubKey)
+	if X == nil || Y == nil {
+		// 33 bytes which are not a point of the curve
+		return nil, constants.ErrInvalidCompressedECDSAPubKey
+	}
 	dPubKeyBytes := make([]byte, 1)
 	dPubKeyBytes[0] = 4
 	dPubKeyBytes = append(dPubKeyBytes, X.Bytes()...)
